@@ -270,12 +270,15 @@ def do_call(tw, call, enc, mode, loop):
     t0 = time.time()
     try:
         if mode == 'async':
+            # (every third call asks for the awaited form through the legacy spelling of the keyword)
+            akw = {'async': True} if (len(call['pats']) + len(call['units'])) % 3 == 0 else {'async_': True}
+            akw.update(kw)
             if call['op'] == 'expect':
-                co = c.expect(pats, async_=True, **kw)
+                co = c.expect(pats, **akw)
             elif call['op'] == 'expect_exact':
-                co = c.expect_exact(pats, async_=True, **kw)
+                co = c.expect_exact(pats, **akw)
             else:
-                co = c.expect_list(c.compile_pattern_list(pats), async_=True, **kw)
+                co = c.expect_list(c.compile_pattern_list(pats), **akw)
             ret = loop.run_until_complete(co)
         else:
             if call['op'] == 'expect':
